@@ -411,6 +411,7 @@ def _check_hint(ctx, k, u, f, L):
     for (use, sub) in result_uses:
         sel_h = None
         sink = None
+        sink_node = None
         for a in ancestors(use):
             if a.get('kind') == 'BinaryOperator' and a.get('opcode') == '=':
                 tgt = (peel(kids(a)[0]).get('referencedDecl') or {}).get('id')
@@ -423,11 +424,14 @@ def _check_hint(ctx, k, u, f, L):
                 for j, ar in enumerate(args):
                     if any(y is use for y in walk(ar)):
                         sel_h = PtrNorm(keys, env).norm(ar)
+                        sink_node = a
                         sink = ('call', keys.key(kids(a)[0]) if a.get('kind') == 'CXXMemberCallExpr' else qn(callee(a)[1]), j,
                                 [keys.key(x) for jj, x in enumerate(args) if jj != j])
                         break
                 break
         sel_f = None
+        role_h = _role(sink_node) if sink_node is not None else None
+        role_f = None
         if sink and sink[0] == 'assign':
             if sink[1] == ubvar:
                 sel_f = ('ptr', base[1], {'U': 1})
@@ -442,13 +446,35 @@ def _check_hint(ctx, k, u, f, L):
                         if any(y.get('kind') == 'DeclRefExpr' and (y.get('referencedDecl') or {}).get('id') == ubvar
                                for y in walk(args[sink[2]])):
                             sel_f = pf.norm(args[sink[2]])
+                            role_f = _role(x)
         same = sel_h is not None and sel_f is not None and sel_h[0] == sel_f[0] and sel_h[1] == sel_f[1] and \
             _subst(sel_h[2], Hk, 'U') == sel_f[2]
+        if sink and sink[0] == 'call':
+            ctx.check(role_h == role_f and role_h is not None, 'C14-hint',
+                      '(vi) hint path and search path use the selected entry in the same way in %s' % fn, use,
+                      'the result built from the entry found by the search is post-processed (%s) while the result built from '
+                      'the remembered entry is not (%s): the answer depends on whether an earlier call left a matching hint'
+                      % (role_f, role_h), construct='hint-role:%s' % fn, detail='%s / %s' % (role_h, role_f))
         ctx.check(same and st_ok, 'C14-hint', '(iv) element selected via hint = element selected by search in %s' % fn, use,
                   'with h the remembered search result, the hint path selects %s but the fall-back selects %s: '
                   'the answer differs depending on whether an earlier call left a matching hint'
                   % (_fmt(sel_h, Hk), _fmt(sel_f, 'U')), construct='hint-select:%s' % fn,
                   detail='%s == %s' % (_fmt(sel_h, Hk), _fmt(sel_f, 'U')))
+
+
+def _role(call):
+    """How the value of a call is consumed: 'return' (directly returned) or 'var' (bound to a local first)."""
+    for a in ancestors(call):
+        k = a.get('kind')
+        if k == 'ReturnStmt':
+            return 'return'
+        if k == 'VarDecl':
+            return 'var'
+        if k == 'BinaryOperator' and a.get('opcode') == '=':
+            return 'var'
+        if k in ('CompoundStmt', 'IfStmt', 'ForStmt', 'WhileStmt'):
+            return 'statement'
+    return None
 
 
 def _subst(lin, a, b):
